@@ -113,7 +113,10 @@ def monStep (acc : St × Seen) : Ev → (St × Seen) × Json
   | .sel t _ kw =>
     let s := acc.1
     let deps := (s.defs t).deps
-    (acc, Json.mkObj [("kind", Json.str "sel"),
+    -- `get_status` drops the record at the time of the status check when the checker changed (other tasks checked
+    -- before this one completes -- parallel runners -- already see it gone)
+    let acc' : St × Seen := if ghostRemoves s t then (ghostPeek s t, seenDrop acc.2 t) else acc
+    (acc', Json.mkObj [("kind", Json.str "sel"),
       ("ok", Json.bool (changedOk s t kw)),
       ("falseItem", Json.bool (falseItemAt s t)),
       ("needs", ofNats (sortNats (deps.filter (needsAt s t)).eraseDups)),
